@@ -7,13 +7,9 @@
 (*   conn (the code's t2f / f2t of the exported mesh), ud_pre / ud_post (user   *)
 (*   data), ck_pre / ck_post (checksums of the exported mesh's arrays).        *)
 (*                                                                             *)
-(* Known deviations are NAMED, never hidden: when SameOrientation fails and    *)
-(* the logged result is exactly what the transcription DecodeImpl of today's   *)
-(* code computes from the code's own tables, the failure is reported under the *)
-(* clause name Deviation_DecodeSortsFacetsNotCells (finding #9); when a format *)
-(* of the dict / npz family returns the same facets with all flags cleared it  *)
-(* is reported as Deviation_FormatDropsOrientation (finding #10).  Any other   *)
-(* orientation failure stays SameOrientation.                                  *)
+(* Model drift (evidence only): the transcription DecodeImpl(EncodeImpl(.)),    *)
+(* evaluated on the code's own t2f / f2t tables, is compared with what the     *)
+(* code returned (index arrays and flags); counted, never a verdict.           *)
 EXTENDS TagCodec
 
 Batch  == JsonDeserialize(IOEnv.TRACE_FILE)
@@ -31,7 +27,7 @@ ConnOK(e) == /\ e.conn.ok = 1 /\ Len(e.conn.t2f) = Len(e.pre.t) /\ Len(e.conn.f2
              /\ \A j \in DOMAIN e.pre.bnd : \A q \in DOMAIN e.pre.bnd[j].ids :
                    e.pre.bnd[j].ori[q] = 0 \/ e.conn.f2t[e.pre.bnd[j].ids[q]][2] # 0     \* legal flags only
 
-\* what DecodeImpl(EncodeImpl(.)) of today's code predicts for the boundary named n, from the code's own tables
+\* what DecodeImpl(EncodeImpl(.)) of the current code predicts for the boundary named n, from the code's own tables
 Predicted(e, n) ==
   LET b  == BndOf(e.pre, n)
       ns == NSlots(e.pre.kind)
@@ -39,22 +35,13 @@ Predicted(e, n) ==
 AsTranscribed(e) == /\ BndNames(e.pre) = BndNames(e.post)
                     /\ \A n \in BndNames(e.pre) :
                          LET d == Predicted(e, n) b2 == BndOf(e.post, n) IN d.ids = b2.ids /\ d.ori = b2.ori
-OrientationDropped(pre, post) ==
-  /\ SameBndDesignation(pre, post) /\ BndNames(pre) = BndNames(post)
-  /\ \A j \in DOMAIN post.bnd : \A q \in DOMAIN post.bnd[j].ori : post.bnd[j].ori[q] = 0
-
 Clauses(e) ==
   IF e.err # "" THEN [NoUnexpectedError |-> FALSE]
   ELSE LET base == RoundTripClauses(e.pre, e.post) IN
        IF ~base.WellFormed THEN base @@ [NoUnexpectedError |-> TRUE]
-       ELSE LET dev9  == ~base.SameOrientation /\ e.codec = "celldata" /\ ConnOK(e) /\ AsTranscribed(e)
-                dev10 == ~base.SameOrientation /\ e.codec \in {"dict", "npz"} /\ OrientationDropped(e.pre, e.post)
-            IN [base EXCEPT !.SameOrientation = @ \/ dev9 \/ dev10] @@
-               [ NoUnexpectedError |-> TRUE,
-                 UserDataUnchanged |-> UserDataUnchanged(e),
-                 ExportDoesNotAlterMesh |-> ExportDoesNotAlterMesh(e),
-                 Deviation_DecodeSortsFacetsNotCells |-> ~dev9,
-                 Deviation_FormatDropsOrientation |-> ~dev10 ]
+       ELSE base @@ [ NoUnexpectedError |-> TRUE,
+                      UserDataUnchanged |-> UserDataUnchanged(e),
+                      ExportDoesNotAlterMesh |-> ExportDoesNotAlterMesh(e) ]
 
 \* model drift (evidence only, never a verdict): does the transcription predict what the code returned?
 Drift(e) ==
